@@ -38,7 +38,7 @@ def main():
     checks, na = [], []
     for pid, (lvl, text, ref) in sorted(REG.items()):
         mod = os.path.join(V, "harness", "props", pid.lower() + ".py")
-        if not os.path.exists(mod):
+        if not os.path.exists(mod) or "\nREADY = True" not in open(mod).read():
             na.append({"property_id": pid, "reason": "check not built yet (planned: %s); see DESIGN.md section %s" % (text, ref)})
             continue
         doc = ""
